@@ -36,6 +36,7 @@ func main() {
 	out := flag.String("out", "/verif/.work/overlay", "output directory for rewritten files")
 	hooks := flag.String("hooks", "/verif/hooksrc/verifhook", "source of the verifhook package")
 	noAccess := flag.Bool("no-access", false, "skip access hooks")
+	as := flag.String("as", "", "emit overlay keys under this directory instead of -repo (shadow a scratch tree over the module path)")
 	flag.Parse()
 
 	if err := os.RemoveAll(*out); err != nil {
@@ -45,9 +46,13 @@ func main() {
 		die(err)
 	}
 	replace := map[string]string{}
+	target := *repo
+	if *as != "" {
+		target = *as
+	}
 	// virtual packages
-	replace[filepath.Join(*repo, "verifhook", "hook.go")] = filepath.Join(*hooks, "hook.go")
-	replace[filepath.Join(*repo, "verifhook", "vsync", "vsync.go")] = filepath.Join(*hooks, "vsync", "vsync.go")
+	replace[filepath.Join(target, "verifhook", "hook.go")] = filepath.Join(*hooks, "hook.go")
+	replace[filepath.Join(target, "verifhook", "vsync", "vsync.go")] = filepath.Join(*hooks, "vsync", "vsync.go")
 
 	skipDirs := map[string]bool{"internal": true, "integration": true, "docs": true, "scripts": true, ".git": true, "node_modules": true, "verifhook": true}
 	byDir := map[string][]string{}
@@ -107,6 +112,11 @@ func main() {
 			}
 			eds := rewrite(fset, af, structs, !*noAccess, stats)
 			if len(eds) == 0 {
+				if *as != "" {
+					// shadow mode: every file of the scratch tree replaces its counterpart
+					rel, _ := filepath.Rel(*repo, f)
+					replace[filepath.Join(target, rel)] = f
+				}
 				continue
 			}
 			res := apply(srcs[f], eds)
@@ -122,7 +132,7 @@ func main() {
 			if _, err := parser.ParseFile(token.NewFileSet(), dst, res, 0); err != nil {
 				die(fmt.Errorf("mkoverlay: rewritten %s does not parse: %v", rel, err))
 			}
-			replace[f] = dst
+			replace[filepath.Join(target, rel)] = dst
 			stats["files"]++
 		}
 	}
